@@ -290,6 +290,11 @@ def three_factor_line(tag, cfg, B, red, dpost_b, dpre_b, a, c, lt, signal):
         fa, fb = (a < 0, c < 0) if lt else (a >= 0, c >= 0)
         return (f"routeT {tag} {b(fa)} {b(fb)} {cfg['red']} {signs} {rows_s(x.reshape(B, -1))} "
                 f"{rows_s(y.reshape(B, -1))}")
+    if tag == "mstdp":
+        # MSTDP / MSTDPET scalar branch: the rates, the reward and the scale themselves are sent; the flags
+        # `lr * signal >= 0` and the factor |signal * scale| are computed by `mstdp_forward_scalar` in Lean
+        return (f"mstdp3 {f2hex(a)} {f2hex(c)} {f2hex(signal)} {f2hex(scale)} {hexs(red(dpost_b, 0))} "
+                f"{hexs(red(dpre_b, 0))}")
     x = red(dpost_b, 0) * abs(signal * scale)
     y = red(dpre_b, 0) * abs(signal * scale)
     fa, fb = (a * signal < 0, c * signal < 0) if lt else (a * signal >= 0, c * signal >= 0)
@@ -540,7 +545,7 @@ def direction_cases(rng):
             continue
         for causal in (True, False):
             cfg = base_cfg(rng, family, 1, -1)      # Hebbian: the t_delta >= 0 / post-triggered term potentiates
-            cfg.update(red="sum", delayed=False, trace="cumulative", history=None)
+            cfg.update(red="sum", delayed=False, trace="cumulative", history=None, scale=1.0, apply=False)
             cfg.pop("delays", None)
             cfg["history"] = directed_history(cfg["B"], cfg["layer"], causal)
             cfg["stream"] = "causal" if causal else "anti-causal"
@@ -646,7 +651,7 @@ def explore(ctx) -> Exploration:
             nets.append(rec["net"])
             if bool((rec["net"] != 0).any()):
                 ex.nontriv((cfg["family"], rec["line"]))
-            ex.count("request", rec["line"].split()[0] + ":" + rec["line"].split()[1])
+            ex.count("request", rec["line"].split()[0] + (":" + rec["line"].split()[1] if not rec["line"].startswith("mstdp3") else ""))
             bad = None
             if not view_close(rec["s"], ds):
                 if cfg["family"] == "LinearHomeostasis" and is_d9(rec, dm, ds):
@@ -655,7 +660,7 @@ def explore(ctx) -> Exploration:
                                              f"the split of the signed term must be `{ds}`; the applied change is |k|")
                 else:
                     bad = ("spec", f"C09:spec:{fam_key(cfg)}:{cfg['stream'].split(':')[0]}",
-                           f"{cfg['family']} step {rec['step']}: parts handed to the updater give `{rec['s']}`, the signed rule gives `{ds}`")
+                           f"{cfg['family']} step {rec['step']} (cell registered with {rec['cell']} rates): parts handed to the updater give `{rec['s']}`, the signed rule gives `{ds}`")
             elif not view_close(rec["m"], dm):
                 bad = ("model", f"C09:model:{fam_key(cfg)}",
                        f"{cfg['family']} step {rec['step']}: real parts `{rec['m']}`, Lean routing `{dm}`")
